@@ -36,6 +36,7 @@ def absorb(run, results, replay_of=None, max_exc=3):
     """Fold case results into an evidence.Run.  Returns number of harness exceptions."""
     nexc = 0
     for case, r in results:
+        run.ncases = getattr(run, "ncases", 0) + 1
         nt = r.get("nontrivial", True)
         run.case(r.get("key", repr(case)), nt)
         for k, v in (r.get("counters") or {}).items():
@@ -47,6 +48,7 @@ def absorb(run, results, replay_of=None, max_exc=3):
             run.count("inconclusive_cases")
             if r.get("harness_exception"):
                 nexc += 1
+                run.count("harness_exceptions")
         for v in r.get("violations") or []:
             key, desc = v[0], v[1]
             rep = v[2] if len(v) > 2 else None
